@@ -10,5 +10,8 @@ GStrings == UNION {[1..k -> Alphabet] : k \in 0..GenL} \cup LongStrings
 Names(str) == [i \in 1..Len(str) |-> str[i].n]
 GenInit == held = <<>> /\ wire = <<>> /\ got = <<>> /\ phase = "gen"
 GenNext == FALSE /\ UNCHANGED vars
-ASSUME ndJsonSerialize("text_strings.ndjson", SetToSeq({[syms |-> Names(s), hex |-> HexOf(s)] : s \in GStrings}))
+\* texts beyond 64 KiB: a 1025-symbol string repeated 70 times by the harness (rep)
+Huge == {s \in LongStrings : Len(s) = 1025 /\ s[1].n = "a"}
+ASSUME ndJsonSerialize("text_strings.ndjson", SetToSeq({[syms |-> Names(s), hex |-> HexOf(s), rep |-> 1] : s \in GStrings}
+                                                        \cup {[syms |-> Names(s), hex |-> HexOf(s), rep |-> 70] : s \in Huge}))
 =============================================================================
